@@ -191,4 +191,444 @@ theorem initOf_fresh {p : Pattern} (hp : p.targetsFresh = true) (name : String) 
       simpa using this
   · rfl
 
+/-! ### cell helpers: allocation-only paths -/
+
+theorem preserves_append {n : Nat} {h : Heap} (hn : n ≤ h.size) (extra : List Obj) :
+    Preserves n h ⟨h.objs ++ extra⟩ := by
+  refine ⟨by simp only [Heap.size, List.length_append] at *; omega, fun l hl => ?_⟩
+  simp only [Heap.get, Heap.size] at *
+  exact List.getElem?_append_left (by omega)
+
+theorem mkCell_frame {n : Nat} {h : Heap} (hn : n ≤ h.size) (v m : Ref) : Preserves n h (mkCell h v m).1 :=
+  preserves_alloc hn _
+
+theorem replaceValues_frame {n : Nat} {p : Pattern} (hp : p.targetsFresh = true) {h : Heap} (hn : n ≤ h.size)
+    (c : Loc) (es : List (String × Ref)) : Preserves n h (replaceValues p h c es).1 := by
+  unfold replaceValues
+  split
+  · exact Preserves.refl hn
+  · rw [if_pos hp]
+    have p1 := preserves_alloc hn (Obj.dict es)
+    exact p1.trans (mkCell_frame p1.1 _ _)
+
+theorem cellReplace_frame {n : Nat} {p : Pattern} (hp : p.targetsFresh = true) {h : Heap} (hn : n ≤ h.size)
+    (c : Loc) (v : Ref) : Preserves n h (cellReplace p h c v).1 := by
+  unfold cellReplace
+  split
+  · rw [if_pos hp]; exact mkCell_frame hn _ _
+  · exact Preserves.refl hn
+
+theorem cellSelect_frame {n : Nat} {p : Pattern} (hp : p.targetsFresh = true) {h : Heap} (hn : n ≤ h.size)
+    (c : Loc) (keys : List String) : Preserves n h (cellSelect p h c keys).1 := by
+  unfold cellSelect
+  split
+  · exact Preserves.refl hn
+  · exact replaceValues_frame hp hn _ _
+
+theorem cellDeriveFields_frame {n : Nat} {p : Pattern} (hp : p.targetsFresh = true) (defs : List (String × Ref)) :
+    ∀ {h : Heap} (c : Loc), n ≤ h.size → Preserves n h (cellDeriveFields p h c defs).1 := by
+  induction defs with
+  | nil => intro h c hn; exact Preserves.refl hn
+  | cons d rest ih =>
+    intro h c hn
+    obtain ⟨name, value⟩ := d
+    simp only [cellDeriveFields]
+    split
+    · exact Preserves.refl hn
+    · rename_i v ev _
+      have p1 := replaceValues_frame (n := n) hp hn c (dictSet ev name value)
+      generalize replaceValues p h c (dictSet ev name value) = res at p1 ⊢
+      obtain ⟨h1, r⟩ := res
+      cases r with
+      | error e => exact p1
+      | ok x =>
+        cases x with
+        | loc c1 => exact p1.trans (ih c1 p1.1)
+        | none => exact p1
+        | scalar q => exact p1
+
+theorem cellAddStatics_frame {n : Nat} {p : Pattern} (hp : p.targetsFresh = true) {h : Heap} (hn : n ≤ h.size)
+    (c src : Loc) (fields : List String) : Preserves n h (cellAddStatics p h c src fields).1 := by
+  unfold cellAddStatics
+  split
+  · exact replaceValues_frame hp hn _ _
+  · exact Preserves.refl hn
+
+theorem overwriteValues_frame {n : Nat} {p : Pattern} (hp : p.targetsFresh = true) {h : Heap} (hn : n ≤ h.size)
+    (c1 c2 : Loc) (suffix : Option String) : Preserves n h (overwriteValues p h c1 c2 suffix).1 := by
+  unfold overwriteValues
+  split
+  · exact replaceValues_frame hp hn _ _
+  · exact Preserves.refl hn
+
+theorem mapEntries_frame {n : Nat} {f : Heap → String → Ref → Except Err (Heap × Ref)}
+    (hf : ∀ (h : Heap) (k : String) (v : Ref) (h' : Heap) (r : Ref), n ≤ h.size → f h k v = .ok (h', r) → Preserves n h h')
+    (es : List (String × Ref)) : ∀ {h : Heap}, n ≤ h.size → Preserves n h (mapEntries f h es).1 := by
+  induction es with
+  | nil => intro h hn; exact Preserves.refl hn
+  | cons e rest ih =>
+    intro h hn
+    obtain ⟨k, v⟩ := e
+    simp only [mapEntries]
+    split
+    · exact Preserves.refl hn
+    · rename_i h1 r heq
+      have p1 := hf h k v h1 r hn heq
+      have p2 := p1.trans (ih (h := h1) p1.1)
+      split <;> simp_all
+
+theorem thinValue_frame {n : Nat} (ndxs : List Nat) (h : Heap) (k : String) (v : Ref) (h' : Heap) (r : Ref)
+    (hn : n ≤ h.size) (hr : thinValue ndxs h k v = .ok (h', r)) : Preserves n h h' := by
+  unfold thinValue at hr
+  split at hr
+  · split at hr
+    · split at hr
+      · cases hr; exact preserves_alloc hn _
+      · cases hr; exact Preserves.refl hn
+    · cases hr; exact Preserves.refl hn
+  · cases hr; exact Preserves.refl hn
+
+theorem thinCell_frame {n : Nat} {p : Pattern} (hp : p.targetsFresh = true) {h : Heap} (hn : n ≤ h.size)
+    (c : Loc) (ndxs : List Nat) : Preserves n h (thinCell p h c ndxs).1 := by
+  unfold thinCell
+  split
+  · exact Preserves.refl hn
+  · rename_i v ev _
+    have p1 := mapEntries_frame (n := n) (thinValue_frame ndxs) ev hn
+    split
+    · rename_i h1 es heq
+      rw [heq] at p1
+      exact p1.trans (replaceValues_frame hp p1.1 _ _)
+    · rename_i h1 e heq; rw [heq] at p1; exact p1
+
+theorem convertValue_frame {n : Nat} (fields : List String) (rate : Rat) (h : Heap) (k : String) (v : Ref)
+    (h' : Heap) (r : Ref) (hn : n ≤ h.size) (hr : convertValue fields rate h k v = .ok (h', r)) :
+    Preserves n h h' := by
+  unfold convertValue at hr
+  split at hr
+  · exact (binop_frame hn hr).1
+  · cases hr; exact Preserves.refl hn
+
+theorem convertCellCurrency_frame {n : Nat} {p : Pattern} (hp : p.targetsFresh = true) {h : Heap}
+    (hn : n ≤ h.size) (c : Loc) (fields : List String) (rate : Rat) (cur : Ref) :
+    Preserves n h (convertCellCurrency p h c fields rate cur).1 := by
+  unfold convertCellCurrency
+  split
+  · exact Preserves.refl hn
+  · rename_i v ev _
+    rw [if_pos hp]
+    have p1 := mapEntries_frame (n := n) (convertValue_frame fields rate) ev hn
+    split
+    · rename_i h1 e heq; rw [heq] at p1; exact p1
+    · rename_i h1 es heq
+      rw [heq] at p1
+      have p2 := preserves_alloc (n := n) p1.1 (Obj.dict (dictSet (match cellMeta h1 c with
+        | .loc m => match h1.get m with
+          | some (.dict em) => em
+          | _ => []
+        | _ => []) "currency" cur))
+      have p3 := preserves_alloc (n := n) p2.1 (Obj.dict es)
+      exact p1.trans (p2.trans (p3.trans (mkCell_frame p3.1 _ _)))
+
+theorem deriveMetadataStep_frame {n : Nat} {p : Pattern} (hp : p.targetsFresh = true) {h : Heap}
+    (hn : n ≤ h.size) (self c : Loc) (name : String) (isAttr : Bool) (value : Ref) :
+    Preserves n h (deriveMetadataStep p h self c name isAttr value).1 := by
+  unfold deriveMetadataStep
+  simp only [hp, Bool.not_true, Bool.false_and, Bool.false_eq_true, if_false]
+  repeat' split
+  all_goals first
+    | exact Preserves.refl hn
+    | (simp only [Heap.alloc, mkCell, List.append_assoc]; exact preserves_append hn _)
+
+theorem cellDeriveMetadata_frame {n : Nat} {p : Pattern} (hp : p.targetsFresh = true)
+    (defs : List (String × Bool × Ref)) (self : Loc) :
+    ∀ {h : Heap} (c : Loc), n ≤ h.size → Preserves n h (cellDeriveMetadata p h self c defs).1 := by
+  induction defs with
+  | nil => intro h c hn; exact Preserves.refl hn
+  | cons d rest ih =>
+    intro h c hn
+    obtain ⟨name, isAttr, value⟩ := d
+    simp only [cellDeriveMetadata]
+    have p1 := deriveMetadataStep_frame (n := n) hp hn self c name isAttr value
+    generalize deriveMetadataStep p h self c name isAttr value = res at p1 ⊢
+    obtain ⟨h1, r⟩ := res
+    cases r with
+    | error e => exact p1
+    | ok x =>
+      cases x with
+      | loc c1 => exact p1.trans (ih c1 p1.1)
+      | none => exact p1
+      | scalar q => exact p1
+
+/-! ### helpers built on `_conforming_sum`, and accumulation into a fresh dict -/
+
+theorem conformingSum_frame {n : Nat} {p : Pattern} (hp : p.targetsFresh = true) {h : Heap} (hn : n ≤ h.size)
+    (values : List Ref) : Preserves n h (conformingSum p h values).1 := by
+  unfold conformingSum
+  obtain ⟨p0, f0, s0⟩ := initAccumulator_frame (n := h.size) rfl (initOf_fresh hp "total") values
+  exact (p0.trans (sumLoop_frame values s0 f0)).mono hn
+
+theorem summarizeKeys_frame {n : Nat} {p : Pattern} (hp : p.targetsFresh = true)
+    (cells : List (List (String × Ref))) (keys : List String) :
+    ∀ {h : Heap}, n ≤ h.size → Preserves n h (summarizeKeys p h cells keys).1 := by
+  induction keys with
+  | nil => intro h hn; exact Preserves.refl hn
+  | cons k ks ih =>
+    intro h hn
+    simp only [summarizeKeys]
+    have p1 := conformingSum_frame (n := n) hp hn (cells.map fun ev => (dictGet ev k).getD .none)
+    generalize conformingSum p h (cells.map fun ev => (dictGet ev k).getD .none) = res at p1 ⊢
+    obtain ⟨h1, r⟩ := res
+    cases r with
+    | error e => exact p1
+    | ok r =>
+      have p2 := p1.trans (ih (h := h1) p1.1)
+      simp only
+      generalize summarizeKeys p h1 cells ks = res2 at p2 ⊢
+      obtain ⟨h2, r2⟩ := res2
+      cases r2 <;> exact p2
+
+theorem summarizeCellValues_frame {n : Nat} {p : Pattern} (hp : p.targetsFresh = true) {h : Heap}
+    (hn : n ≤ h.size) (cells : List Loc) (keys : List String) :
+    Preserves n h (summarizeCellValues p h cells keys).1 := by
+  unfold summarizeCellValues
+  have p1 := summarizeKeys_frame (n := n) hp (cells.map fun c => ((cellValues h c).map (·.2)).getD []) keys hn
+  simp only
+  generalize summarizeKeys p h (cells.map fun c => ((cellValues h c).map (·.2)).getD []) keys = res at p1 ⊢
+  obtain ⟨h1, r⟩ := res
+  cases r with
+  | error e => exact p1
+  | ok es => exact p1.trans (preserves_alloc p1.1 _)
+
+/-- a binary operator leaves EVERY existing location alone -/
+theorem binop_get {f : Rat → Rat → Rat} {h h' : Heap} {a b r : Ref} (hr : binop f h a b = .ok (h', r))
+    {l : Loc} (hl : l < h.size) : h'.get l = h.get l :=
+  (binop_frame (n := h.size) (Nat.le_refl _) hr).1.2 l hl
+
+/-- `+=` leaves every location that does not hold an array alone (it writes into the accumulator's
+own array, or allocates) -/
+theorem iadd_get_dict {h h' : Heap} {x v x' : Ref} (hr : iadd h x v = .ok (h', x')) {l : Loc}
+    {es : List (String × Ref)} (hl : h.get l = some (.dict es)) : h'.get l = some (.dict es) := by
+  have hlt : l < h.size := by
+    simp only [Heap.get, Heap.size] at *
+    exact (List.getElem?_eq_some_iff.mp hl).1
+  unfold iadd at hr
+  split at hr
+  · rename_i lx
+    split at hr
+    · rename_i dx hx
+      have hne : lx ≠ l := by
+        intro heq; rw [heq, hl] at hx; cases hx
+      split at hr
+      · cases hr; rw [get_set_ne _ _ _ hne]; exact hl
+      · split at hr
+        · simp only [bind, Except.bind] at hr
+          split at hr
+          · cases hr
+          · cases hr; rw [get_set_ne _ _ _ hne]; exact hl
+        · cases hr
+      · cases hr
+    · cases hr
+  · rw [binop_get hr hlt]; exact hl
+  · cases hr
+
+theorem mem_dictSet {es : List (String × Ref)} {k : String} {v : Ref} {e : String × Ref}
+    (he : e ∈ dictSet es k v) : e ∈ es ∨ e = (k, v) := by
+  unfold dictSet at he
+  split at he
+  · obtain ⟨q, hq, rfl⟩ := List.mem_map.mp he
+    split
+    · exact Or.inr rfl
+    · exact Or.inl hq
+  · rcases List.mem_append.mp he with h | h
+    · exact Or.inl h
+    · simp at h; exact Or.inr h
+
+/-- invariant of the `vals_dict` loop: the dict lives at a location allocated after entry and every
+array it holds was allocated after entry -/
+def AccInv (n : Nat) (h : Heap) (dl : Loc) : Prop :=
+  n ≤ dl ∧ ∀ es, h.get dl = some (.dict es) → ∀ e ∈ es, FreshRef n e.2
+
+theorem freshRef_mono {n m : Nat} (hnm : n ≤ m) {r : Ref} (h : FreshRef m r) : FreshRef n r := by
+  cases r with
+  | loc l => exact Nat.le_trans hnm h
+  | none => trivial
+  | scalar q => trivial
+
+theorem accumulateItems_frame {n : Nat} (dl : Loc) (share : Rat) (items : List (String × Ref)) :
+    ∀ {h : Heap}, n ≤ h.size → AccInv n h dl →
+      Preserves n h (accumulateItems h dl share items).1 ∧ AccInv n (accumulateItems h dl share items).1 dl ∧
+      n ≤ (accumulateItems h dl share items).1.size := by
+  induction items with
+  | nil => intro h hn hi; exact ⟨Preserves.refl hn, hi, hn⟩
+  | cons it rest ih =>
+    intro h hn hi
+    obtain ⟨field, val⟩ := it
+    simp only [accumulateItems]
+    split
+    · rename_i es hes
+      split
+      · exact ⟨Preserves.refl hn, hi, hn⟩
+      · rename_i h1 prod hb
+        obtain ⟨p1, fprod⟩ := binop_frame (n := n) hn hb
+        have hlt : dl < h.size := by
+          simp only [Heap.get, Heap.size] at *
+          exact (List.getElem?_eq_some_iff.mp hes).1
+        have hes1 : h1.get dl = some (.dict es) := by rw [binop_get hb hlt]; exact hes
+        have hi1 : AccInv n h1 dl := ⟨hi.1, fun es' he' => by
+          rw [hes1] at he'; cases he'; exact hi.2 es hes⟩
+        have fcur : FreshRef n ((dictGet es field).getD (.scalar 0)) := by
+          unfold dictGet
+          cases hf : es.find? (fun x => x.1 == field) with
+          | none => simp [FreshRef]
+          | some e =>
+            simp only [Option.map_some, Option.getD_some]
+            exact hi.2 es hes e (List.mem_of_find?_eq_some hf)
+        split
+        · exact ⟨p1, hi1, p1.1⟩
+        · rename_i h2 r hr
+          obtain ⟨p2, fr⟩ := iadd_frame p1.1 fcur hr
+          have hes2 : h2.get dl = some (.dict es) := iadd_get_dict hr hes1
+          rw [hes2]
+          simp only
+          have p3 : Preserves n h2 (h2.set dl (.dict (dictSet es field r))) :=
+            preserves_set_fresh p2.1 hi.1 _
+          have hi3 : AccInv n (h2.set dl (.dict (dictSet es field r))) dl := by
+            refine ⟨hi.1, fun es' he' => ?_⟩
+            have hlt2 : dl < h2.size := by
+              simp only [Heap.get, Heap.size] at *
+              exact (List.getElem?_eq_some_iff.mp hes2).1
+            have : (h2.set dl (.dict (dictSet es field r))).get dl = some (.dict (dictSet es field r)) := by
+              simp only [Heap.set, Heap.get, Heap.size] at *
+              rw [List.getElem?_set_self hlt2]
+            rw [this] at he'; cases he'
+            intro e he
+            rcases mem_dictSet he with h' | h'
+            · exact hi.2 es hes e h'
+            · rw [h']; exact fr
+          have := ih (h := h2.set dl (.dict (dictSet es field r))) p3.1 hi3
+          exact ⟨p1.trans (p2.trans (p3.trans this.1)), this.2.1, this.2.2⟩
+    · exact ⟨Preserves.refl hn, hi, hn⟩
+
+theorem accumulateCells_frame {n : Nat} (dl : Loc) (cells : List (List (String × Ref) × Rat)) :
+    ∀ {h : Heap}, n ≤ h.size → AccInv n h dl → Preserves n h (accumulateCells h dl cells).1 := by
+  induction cells with
+  | nil => intro h hn _; exact Preserves.refl hn
+  | cons c rest ih =>
+    intro h hn hi
+    obtain ⟨ev, share⟩ := c
+    simp only [accumulateCells]
+    obtain ⟨p1, i1, s1⟩ := accumulateItems_frame (n := n) dl share ev hn hi
+    generalize accumulateItems h dl share ev = res at p1 i1 s1 ⊢
+    obtain ⟨h1, r⟩ := res
+    cases r with
+    | error e => exact p1
+    | ok u => cases u; exact p1.trans (ih s1 i1)
+
+theorem get_alloc_self (h : Heap) (o : Obj) : (h.alloc o).1.get (h.alloc o).2 = some o := by
+  simp [Heap.alloc, Heap.get]
+
+theorem aqpyAccumulate_frame {p : Pattern} (hp : p.targetsFresh = true) (h : Heap) (cells : List (Loc × Rat)) :
+    Preserves h.size h (aqpyAccumulate p h cells).1 := by
+  unfold aqpyAccumulate
+  simp only [initOf_fresh hp "vals_dict", if_true]
+  have p0 := preserves_alloc (n := h.size) (Nat.le_refl _) (Obj.dict [])
+  have hi : AccInv h.size (h.alloc (Obj.dict [])).1 (h.alloc (Obj.dict [])).2 := by
+    refine ⟨Nat.le_refl _, fun es he => ?_⟩
+    rw [get_alloc_self] at he
+    cases he
+    intro e he; cases he
+  have p1 := accumulateCells_frame (n := h.size) (h.alloc (Obj.dict [])).2
+    (cells.map fun cs => (((cellValues h cs.1).map (·.2)).getD [], cs.2)) p0.1 hi
+  generalize accumulateCells (h.alloc (Obj.dict [])).1 (h.alloc (Obj.dict [])).2
+    (cells.map fun cs => (((cellValues h cs.1).map (·.2)).getD [], cs.2)) = res at p1 ⊢
+  obtain ⟨h1, r⟩ := res
+  cases r with
+  | error e => exact p0.trans p1
+  | ok u => cases u; exact p0.trans p1
+
+theorem linearBlend_frame {n : Nat} (vs : List (Ref × Rat)) :
+    ∀ {h : Heap} (acc : Ref), n ≤ h.size → Preserves n h (linearBlend h acc vs).1 := by
+  induction vs with
+  | nil => intro h acc hn; exact Preserves.refl hn
+  | cons vw rest ih =>
+    intro h acc hn
+    obtain ⟨v, w⟩ := vw
+    simp only [linearBlend]
+    split
+    · exact Preserves.refl hn
+    · rename_i h1 prod hb
+      have p1 := (binop_frame (n := n) hn hb).1
+      split
+      · exact p1
+      · rename_i h2 acc' hb2
+        have p2 := (binop_frame (n := n) p1.1 hb2).1
+        exact p1.trans (p2.trans (ih acc' p2.1))
+
+theorem blendFields_frame {n : Nat} (dl : Loc) (hdl : n ≤ dl) (cells : List (List (String × Ref)))
+    (weights : List Rat) (fs : List String) :
+    ∀ {h : Heap}, n ≤ h.size → Preserves n h (blendFields h dl cells weights fs).1 := by
+  induction fs with
+  | nil => intro h hn; exact Preserves.refl hn
+  | cons f rest ih =>
+    intro h hn
+    simp only [blendFields]
+    have p1 := linearBlend_frame (n := n) ((cells.map fun ev => (dictGet ev f).getD .none).zip weights) (.scalar 0) hn
+    generalize linearBlend h (.scalar 0) ((cells.map fun ev => (dictGet ev f).getD .none).zip weights) = res at p1 ⊢
+    obtain ⟨h1, r⟩ := res
+    cases r with
+    | error e => exact p1
+    | ok r =>
+      simp only
+      split
+      · rename_i es _
+        have p2 := preserves_set_fresh (n := n) p1.1 hdl (Obj.dict (dictSet es f r))
+        exact p1.trans (p2.trans (ih p2.1))
+      · exact p1
+
+theorem blendCells_frame {pb pr : Pattern} (hpb : pb.targetsFresh = true) (hpr : pr.targetsFresh = true)
+    (h : Heap) (cells : List Loc) (weights : List Rat) :
+    Preserves h.size h (blendCells pb pr h cells weights).1 := by
+  cases cells with
+  | nil => exact Preserves.refl (Nat.le_refl _)
+  | cons c0 tl =>
+    simp only [blendCells]
+    cases hv : cellValues h c0 with
+    | none => exact Preserves.refl (Nat.le_refl _)
+    | some x =>
+      obtain ⟨v0, ev0⟩ := x
+      simp only [initOf_fresh hpb "clean_values", if_true]
+      have p0 := preserves_alloc (n := h.size) (Nat.le_refl _) (Obj.dict [])
+      have p1 := blendFields_frame (n := h.size) (h.alloc (Obj.dict [])).2 (Nat.le_refl _)
+        ((c0 :: tl).map fun c => ((cellValues h c).map (·.2)).getD []) weights (ev0.map (·.1)) p0.1
+      generalize blendFields (h.alloc (Obj.dict [])).1 (h.alloc (Obj.dict [])).2
+        ((c0 :: tl).map fun c => ((cellValues h c).map (·.2)).getD []) weights (ev0.map (·.1)) = res at p1 ⊢
+      obtain ⟨h1, r⟩ := res
+      cases r with
+      | error e => exact p0.trans p1
+      | ok u =>
+        cases u
+        exact p0.trans (p1.trans (cellReplace_frame hpr (p0.trans p1).1 _ _))
+
+theorem weightCellValues_frame {n : Nat} (ev : List (String × Ref)) (ws : List Rat) :
+    ∀ {h : Heap}, n ≤ h.size → Preserves n h (weightCellValues h ev ws).1 := by
+  induction ws with
+  | nil => intro h hn; exact Preserves.refl hn
+  | cons w rest ih =>
+    intro h hn
+    simp only [weightCellValues]
+    have p1 := mapEntries_frame (n := n) (f := fun h _ v => binop (· * ·) h v (.scalar w))
+      (fun h k v h' r hn' hr => (binop_frame hn' hr).1) ev hn
+    generalize mapEntries (fun h _ v => binop (· * ·) h v (.scalar w)) h ev = res at p1 ⊢
+    obtain ⟨h1, r⟩ := res
+    cases r with
+    | error e => exact p1
+    | ok es =>
+      simp only
+      have p2 := preserves_alloc (n := n) p1.1 (Obj.dict es)
+      have p3 := p1.trans (p2.trans (ih (h := (h1.alloc (Obj.dict es)).1) p2.1))
+      generalize weightCellValues (h1.alloc (Obj.dict es)).1 ev rest = res2 at p3 ⊢
+      obtain ⟨h3, r3⟩ := res2
+      cases r3 <;> exact p3
+
 end Bermuda.Heap
